@@ -1,6 +1,7 @@
 package operationparser
 
 import (
+	"errors"
 	"fmt"
 
 	"github.com/trustbloc/sidetree-core-go/pkg/api/operation"
@@ -31,6 +32,10 @@ func (p *Parser) GetCommitment(opBytes []byte) (string, error) {
 
 	switch op.Type { //nolint:exhaustive
 	case operation.TypeUpdate:
+		if op.Delta == nil {
+			return "", errors.New("get commitment - missing delta")
+		}
+
 		return op.Delta.UpdateCommitment, nil
 
 	case operation.TypeDeactivate:
